@@ -793,6 +793,56 @@ func (x *c10Ctx) checkFuncFlat(p *packages.Package, f *core.Func) int {
 
 func c10Dims(c *core.Ctx, pkgs []*packages.Package) {
 	n := 0
+	// summaries (seed C06-10-r4): functions that edit a []string parameter in place — re-slice it as an append base or assign
+	// the re-slice, append to it, or store into its elements. Handing them a message's tag-name slice is the same defect one call away.
+	inPlace := map[*types.Func]map[int]bool{}
+	for _, p := range pkgs {
+		info := p.TypesInfo
+		for _, f := range core.AllFuncs(p) {
+			fo, _ := info.Defs[f.Decl.Name].(*types.Func)
+			if fo == nil || f.Decl.Type.Params == nil {
+				continue
+			}
+			sig := fo.Type().(*types.Signature)
+			for i := 0; i < sig.Params().Len(); i++ {
+				pv := sig.Params().At(i)
+				sl, ok := pv.Type().Underlying().(*types.Slice)
+				if !ok || !types.Identical(sl.Elem(), types.Typ[types.String]) {
+					continue
+				}
+				isP := func(e ast.Expr) bool {
+					id, ok := ast.Unparen(e).(*ast.Ident)
+					return ok && info.Uses[id] == pv
+				}
+				edits := false
+				ast.Inspect(f.Decl.Body, func(nd ast.Node) bool {
+					switch y := nd.(type) {
+					case *ast.SliceExpr:
+						if isP(y.X) {
+							edits = true
+						}
+					case *ast.CallExpr:
+						if core.IsBuiltin(info, y, "append") && len(y.Args) > 0 && isP(y.Args[0]) {
+							edits = true
+						}
+					case *ast.AssignStmt:
+						for _, l := range y.Lhs {
+							if ix, ok := ast.Unparen(l).(*ast.IndexExpr); ok && isP(ix.X) {
+								edits = true
+							}
+						}
+					}
+					return true
+				})
+				if edits {
+					if inPlace[fo] == nil {
+						inPlace[fo] = map[int]bool{}
+					}
+					inPlace[fo][i] = true
+				}
+			}
+		}
+	}
 	for _, p := range pkgs {
 		info := p.TypesInfo
 		for _, f := range core.AllFuncs(p) {
@@ -853,6 +903,14 @@ func c10Dims(c *core.Ctx, pkgs []*packages.Package) {
 					if core.IsBuiltin(info, y, "append") && len(y.Args) > 0 && sharedSlice(y.Args[0]) {
 						n++
 						c.Fail("C10.dims", f.Name()+"#append@"+types.ExprString(y.Args[0]), y.Pos(), "append to the tag-name slice of a message's dimensions may write into the grouping node's own backing array")
+					}
+					if cal := core.Callee(info, y); cal != nil && inPlace[cal] != nil {
+						for i, a := range y.Args {
+							if inPlace[cal][i] && sharedSlice(a) {
+								n++
+								c.Fail("C10.dims", f.Name()+"#call:"+cal.Name()+"@"+types.ExprString(a), y.Pos(), "%s hands the tag-name slice of a message's dimensions to %s, which edits that parameter in place (re-slices, appends or stores into it): the slice is the grouping node's own, shared by every later point and every sibling branch — the first point through rewrites the upstream node's dimension list", f.Name(), cal.Name())
+							}
+						}
 					}
 				case *ast.AssignStmt:
 					for _, l := range y.Lhs {
@@ -1418,6 +1476,48 @@ func c10ProbeRules(c *core.Ctx, root *packages.Package) {
 	c.Rule("C10.evalrefs", "A3: F63: in newEvalNode the names filled into the scope before expression i (refVarList[i]) are filtered against the as() names of the earlier expressions (AsList[:i]): an earlier result stored under the name of a field is not overwritten by the raw field before a later expression reads it")
 	c.Rule("C10.flatten", "A1/A2: F65-F67: FlattenNode.flatten leaves every iteration over the points (end of body, continue) with the pooled prefix buffer reset; flattenBuffer.EndBatch emits only a non-empty field set (as every other path does); flattenBuffer.Point does not assign the run's time (addPoint owns it)")
 	c.Rule("C10.stable", "A3: F68: GroupByNode.emit orders the points of a regrouped batch with a stable sort (points of one series with equal times keep their order)")
+
+	c.Rule("C10.floatquot", "A4: no conversion to a floating-point type has an integer quotient as its operand (float64(d / unit) with integer-typed, non-constant operands): the division truncates before the value becomes a float — a duration in units, a rate, a ratio loses its fraction; float64(d) / float64(unit) is the form")
+	nConv := 0
+	for _, f := range core.AllFuncs(root) {
+		ast.Inspect(f.Decl.Body, func(nd ast.Node) bool {
+			call, ok := nd.(*ast.CallExpr)
+			if !ok || len(call.Args) != 1 {
+				return true
+			}
+			tv, ok := info.Types[call.Fun]
+			if !ok || !tv.IsType() {
+				return true
+			}
+			bt, ok := tv.Type.Underlying().(*types.Basic)
+			if !ok || bt.Info()&types.IsFloat == 0 {
+				return true
+			}
+			nConv++
+			q, ok := ast.Unparen(call.Args[0]).(*ast.BinaryExpr)
+			if !ok || q.Op != token.QUO {
+				return true
+			}
+			if qt, ok := info.Types[q]; ok && qt.Value != nil {
+				return true // a constant expression
+			}
+			lt, lok := info.TypeOf(q.X).Underlying().(*types.Basic)
+			rt, rok := info.TypeOf(q.Y).Underlying().(*types.Basic)
+			if !lok || !rok || lt.Info()&types.IsInteger == 0 || rt.Info()&types.IsInteger == 0 {
+				return true
+			}
+			name := f.Decl.Name.Name
+			if r := core.RecvName(f.Decl); r != "" {
+				name = r + "." + name
+			}
+			c.Fail("C10.floatquot", name+"#"+types.ExprString(call.Fun), call.Pos(), "%s converts the integer quotient %s to %s: the division is done on integers (%s), so the fraction is gone before the value is a float — a duration of 90s in .unit(1m) becomes 1 instead of 1.5", name, types.ExprString(q), types.ExprString(call.Fun), types.TypeString(info.TypeOf(q.X), nil))
+			return true
+		})
+	}
+	if nConv > 0 {
+		c.Ok("C10.floatquot", "root#conversions", "no float conversion of an integer quotient")
+	}
+	c.Floor("C10.floatquot", "conversions to a floating-point type examined", nConv, 10)
 
 	// F61
 	nGrow := 0
